@@ -22,9 +22,12 @@ func NewFuture[T vivid.Message](liaison vivid.ActorLiaison, timeout time.Duratio
 	}
 
 	if timeout > 0 {
+		// 定时器可能在赋值完成前就已触发（极短的超时），close 中对 timer 的读取需与此处的写入互斥
+		future.mu.Lock()
 		future.timer = time.AfterFunc(timeout, func() {
 			future.Close(vivid.ErrorFutureTimeout)
 		})
+		future.mu.Unlock()
 	}
 
 	return future
@@ -83,6 +86,8 @@ func (f *Future[T]) PipeTo(forwarders vivid.ActorRefs) error {
 	f.mu.Lock()
 	if f.closed.Load() {
 		f.mu.Unlock()
+		// closed 在结果字段写入之前就已置位，需等待 done 关闭后结果才可读
+		<-f.done
 		f.tellForwarders(forwarders, f.message, f.err)
 		return nil
 	}
@@ -119,8 +124,11 @@ func (f *Future[T]) close(v any) {
 		f.err = fmt.Errorf("%w, expected %T, got %T", vivid.ErrorFutureMessageTypeMismatch, f.message, val)
 	}
 	close(f.done)
-	if f.timer != nil {
-		f.timer.Stop()
+	f.mu.Lock()
+	timer := f.timer
+	f.mu.Unlock()
+	if timer != nil {
+		timer.Stop()
 	}
 	if f.closer != nil {
 		f.closer()
